@@ -76,6 +76,7 @@ func (x *Ex) genFuncsMore(body *LeanFile) {
 	x.embedJob(body, "VimeoExtractor", "Extract", "vimeoExtract", "vimeoExtract")
 	x.embedJob(body, "TwitterExtractor", "extractRendered", "twitterRendered", "twitterRendered")
 	x.embedJob(body, "TwitterExtractor", "extractNonRendered", "twitterNonRendered", "twitterNonRendered")
+	x.genMarkup(body)
 }
 
 func (x *Ex) genInventory() string {
